@@ -48,6 +48,12 @@ static _Atomic(hazard_pointer_thread_record_t*) fiber_hazard_head = NULL;
 void fiber_destroy(fiber_t* f) {
   if (f) {
     assert(f->state == FIBER_STATE_DONE);
+#ifdef LIBFIBER_VERIF
+    verif_event(6, f, NULL);
+    if (verif_quarantine(f)) {
+      return;
+    }
+#endif
     fiber_context_destroy(&f->context);
     free(f->mpsc_fifo_node);
     free(f);
@@ -91,7 +97,13 @@ static inline void fiber_manager_switch_to(fiber_manager_t* manager,
   manager->current_fiber = new_fiber;
   manager->old_fiber = old_fiber;
   new_fiber->state = FIBER_STATE_RUNNING;
+#ifdef LIBFIBER_VERIF
+  verif_event(4, old_fiber, new_fiber);
+#endif
   fiber_context_swap(&old_fiber->context, &new_fiber->context);
+#ifdef LIBFIBER_VERIF
+  verif_event(5, old_fiber, NULL);
+#endif
 
   fiber_manager_do_maintenance();
 }
